@@ -224,6 +224,47 @@ def size_step_rule(ctx, P, R):
                  "chunk is released with a size smaller than requested", where=b.where(s), site=f"size step #{k}")
 
 
+def r6_prepare_pads_layout(ctx, P, R="C12.R6"):
+    ctx.rule(R, "the public prepare / commit entry points of the type-erased interface (BumpAllocatorCore::prepare_allocation, "
+                "allocate_prepared(_rev) on BumpScope) pad the caller's layout to its alignment before using it: both ends of a "
+                "prepared range are aligned and a fresh chunk is budgeted for one-sided padding only, which fits the request only "
+                "when size % align == 0 (otherwise in_another_chunk reaches unreachable_unchecked / the range is too small)")
+    n = 0
+    for b in P.fn_bodies():
+        if b.item["name"] not in ("prepare_allocation", "allocate_prepared", "allocate_prepared_rev"):
+            continue
+        if not b.path.startswith("<bump_scope::BumpScope<") or "BumpAllocatorCore" not in b.path:
+            continue
+        n += 1
+        pads = b.calls_to(lambda f: f.get("name") == "pad_to_align")
+        lay = [l for l in range(1, b.argc + 1) if b.locals[l]["ty"] == "core::alloc::Layout"]
+        ok = len(pads) == 1 and bool(lay)
+        if ok:
+            ps = pads[0][0]
+            # every use of the layout parameter other than the padding call itself comes after it and goes through its result:
+            # no call (besides pad_to_align) takes the raw parameter
+            raw_uses = []
+            for s_, t in b.calls():
+                if s_ == ps:
+                    continue
+                for a in t["args"]:
+                    if a.get("k") in ("cp", "mv") and a["p"]["l"] == lay[0]:
+                        raw_uses.append(s_)
+                    elif a.get("k") in ("cp", "mv"):
+                        pass
+            for s_, st in b.assigns():
+                r = st["r"]
+                if r["k"] == "ref" and r["p"]["l"] == lay[0] and not b.dominates(s_, ps):
+                    raw_uses.append(s_)
+            ok = not raw_uses and all(b.dominates(ps, s_) for s_, t in b.calls() if s_ != ps and t["f"].get("name") in
+                                      ("prepare_allocation_range", "in_another_chunk", "size", "align", "set_pos_addr_and_align", "copy_to"))
+        ctx.inst(R, b.path, ok, "the layout is padded to its alignment first and only the padded layout is used" if ok else
+                 "the caller's layout is used without Layout::pad_to_align: for a size that is not a multiple of the alignment the "
+                 "prepared range can be smaller than the layout, a freshly created chunk may not fit it (unreachable_unchecked in safe "
+                 "code) and the downward commit returns a misaligned block", where=b.where(), site="layout padded at the entry")
+    ctx.floor(R, "prepare / commit entry points of BumpScope", n, 3)
+
+
 def r3_growth(ctx, P):
     R = "C12.R3"
     ctx.rule(R, "append_for sizes the new chunk by max(hint for the layout, checked 2 x current size)")
@@ -266,4 +307,5 @@ def run(ctx, progs):
         c07.r5_overflow(ctx, P, R="C12.R2")
         r3_growth(ctx, P)
         r4_rounding_order(ctx, P)
+        r6_prepare_pads_layout(ctx, P)
     ctx.config = None
